@@ -27,7 +27,7 @@ INFO = dict(
               're-adding the endpoint creates a fresh member. (b) The real ClientTimeoutSink + real TimerQueue on '
               'top of the real balancer on the virtual-time loop with symbolic reply/fault/timeout instants: whichever of '
               'reply, error, timeout, late reply comes first, the release runs exactly once.',
-  bounds={'quick': '(a) N<=5 members, <=1 down; outstanding 0..10^6 symbolic. (b) 2 members, <=2 concurrent calls, each with symbolic deadline, reply time and reply kind',
+  bounds={'quick': '(a) N<=5 members, <=1 down (<=2 down for N<=4, every queue order); outstanding 0..10^6 symbolic. (b) 2 members, <=2 concurrent calls, each with symbolic deadline, reply time and reply kind',
           'thorough': '(a) N<=7, <=2 down. (b) 3 members, <=3 concurrent calls'},
   outside=['more members / more concurrent calls than the bound', 'aperture _total accounting (C06 harness)'],
   stubs=['random.randint -> symbolic index', 'fake member channels (state symbolic, fixed per operation)',
@@ -50,7 +50,7 @@ class Log(object):
 def jobs(tier):
   js = []
   for N in SIZES[tier]:
-    for down in down_configs(N, MAXDOWN[tier]):
+    for down in down_configs(N, max(MAXDOWN[tier], 2 if N <= 4 else 1)):
       tag = 'N%d-d%s' % (N, ''.join(map(str, down)) or '0')
       cost = 4 ** N
       js.append(dict(name='dispatch-' + tag, op='dispatch', N=N, down=down, cost=cost * 3))
